@@ -454,8 +454,14 @@ SOCKET accept(SOCKET s, SOCKADDR *addr, int *len)
     return INVALID_SOCKET;
   }
   if (fails(WA_accept)) return INVALID_SOCKET;
-  if (o->state != ST_LISTENING || o->pending_client < 0 || !g_obj[o->pending_client].open) {
+  if (o->state != ST_LISTENING) {
     wsa_fail(WSAEINVAL);
+    return INVALID_SOCKET;
+  }
+  if (o->pending_client < 0 || !g_obj[o->pending_client].open) {
+    // a blocking accept with no connection on its way never returns
+    would_block_forever("accept", (HANDLE) (intptr_t) s);
+    wsa_fail(WSAEINTR);
     return INVALID_SOCKET;
   }
   int c = o->pending_client;
@@ -1031,6 +1037,20 @@ long wsim_child_read(void *buf, size_t n)
   if (o->kind != WK_SOCK || o->state != ST_CONNECTED) return 0;
   if (o->rx_len > 0) return (long) dequeue(o, buf, n);
   return peer_done_sending(o) ? 0 : -1;
+}
+
+void wsim_child_close_extras(void)
+{
+  if (!g_child_running) return;
+  for (int k = 0; k < g_child_nheld;) {
+    int idx = g_child_held[k];
+    if (idx == g_child_std[0] || idx == g_child_std[1] || idx == g_child_std[2]) {
+      k++;
+      continue;
+    }
+    g_obj[idx].child_refs--;
+    g_child_held[k] = g_child_held[--g_child_nheld];
+  }
 }
 
 void wsim_child_close(int stream)
